@@ -281,7 +281,7 @@ def jobs_C06(tier):
     for p in precs:
         j += seq('C06', 'q', p, 4, 'quick', vkind=4, extra=['--salt', '1'])
         j += seq('C06', 'q', p, 4, 'quick', vkind=5, extra=['--salt', '2'])
-        if tier != 'quick':
+        if tier != 'quick' and p in 'dz':        # every structurally singular 4x4 pattern crashes (known finding); 6 x 10^6 deaths made the first thorough run miss its cap
             j += seq('C06', 'q', p, 4, 'quick', vkind=0)
             j += seq('C06', 'q', p, 4, 'quick', vkind=3)
     # K15 (Engine S; added after seeded change C06/1 was missed): two zero-pivot columns met by different threads in either order; in EVERY
